@@ -31,6 +31,17 @@ def token_shapes():
     for b in bodies:
         S.append(b'"' + b + b'"')
     S += [b"'a'", b'"', b'"a', b'"\\', b'"\\u00', b'"\\ud800\\udc0']
+    # several (incomplete) escapes in one literal: size estimates are made per escape
+    for e in (b'\\u', b'\\u1', b'\\u12', b'\\u123', b'\\ud800', b'\\', b'\\uD83D\\u', b'\\u0041', b'\\n', b'\\x'):
+        for k in (2, 3, 4, 8):
+            S.append(b'"AAAA' + e * k + b'"')
+            S.append(b'"' + e * k + b'AAAA"')
+    # long runs of number characters that do not start a number / are not numbers at all
+    for c in (b'e', b'E', b'+', b'-', b'.', b'e+', b'-.', b'.e'):
+        for L in (62, 63, 64, 70, 130):
+            S.append(b'-' + (c * L)[:L])
+            S.append(b'1' + (c * L)[:L])
+            S.append(b'0' * 5 + (c * L)[:L] + b'1')
     S += [b'[]', b'{}', b'[1]', b'[1,2]', b'[1 ,2 ]', b'{"a":1}', b'{"a":1,"b":[true,null]}', b'[[]]', b'[{}]', b'{"a":{}}',
           b' [ 1 , 2 ] ', b'{ "a" : 1 }', b'[1,]', b'[,]', b'[,1]', b'[1,,2]', b'[1 2]', b'{"a"}', b'{"a":}', b'{,}', b'{"a":1,}',
           b'{"a":1 "b":2}', b'{"a"::1}', b'{"a" 1}', b'{a:1}', b'{1:2}', b'{null:1}', b'{[]:1}', b'{"a":1}}', b'[1]]', b'[1}',
